@@ -1,0 +1,32 @@
+//go:build verif
+
+package main
+
+import (
+	"context"
+	"encoding/json"
+
+	"go.lsp.dev/jsonrpc2"
+	"go.lsp.dev/protocol"
+
+	"github.com/juev/hledger-lsp/internal/server"
+)
+
+// verifHandler answers the custom request "verif/getDocument" {uri} with the text the
+// server currently mirrors for that document ({"open": bool, "text": string}), so that a
+// verification harness speaking JSON-RPC to the built binary can observe the mirror.
+func verifHandler(srv *server.Server, next jsonrpc2.Handler) jsonrpc2.Handler {
+	return func(ctx context.Context, reply jsonrpc2.Replier, req jsonrpc2.Request) error {
+		if req.Method() != "verif/getDocument" {
+			return next(ctx, reply, req)
+		}
+		var p struct {
+			URI protocol.DocumentURI `json:"uri"`
+		}
+		if err := json.Unmarshal(req.Params(), &p); err != nil {
+			return reply(ctx, nil, err)
+		}
+		text, ok := srv.GetDocument(p.URI)
+		return reply(ctx, map[string]any{"open": ok, "text": text}, nil)
+	}
+}
